@@ -67,6 +67,7 @@ fn gen_c06(r: &mut Rng, _t: Tier, _job: u64) -> Plan {
                 last_row_ended: r.chance(2, 3),
                 close: if r.coin() { Close::Finish } else { Close::FinishOne },
                 contra: None,
+                recover: None,
             })),
         ));
     }
@@ -184,6 +185,7 @@ fn gen_c07(r: &mut Rng, _t: Tier, _job: u64) -> Plan {
         last_row_ended: r.chance(2, 3),
         close: if r.coin() { Close::Finish } else { Close::FinishOne },
         contra: None,
+        recover: None,
     };
     // refusal cases: one per ~5 runs
     if !unit.rows.is_empty() && r.chance(1, 5) {
@@ -207,6 +209,9 @@ fn gen_c07(r: &mut Rng, _t: Tier, _job: u64) -> Plan {
             });
         }
         unit.last_row_ended = true;
+        if r.coin() {
+            unit.recover = Some((gen_errkind(r), gen_errmsg(r)));
+        }
     }
     let cols_final = unit.cols.clone();
     let sid = 1 + r.below(1000) as u32;
@@ -407,6 +412,7 @@ fn gen_c09(r: &mut Rng, _t: Tier, _job: u64) -> Plan {
                     last_row_ended: true,
                     close: Close::Finish,
                     contra: None,
+                    recover: None,
                 })),
             ));
         } else {
@@ -657,7 +663,7 @@ pub struct C13;
 
 fn gen_c13_plan(r: &mut Rng, kind: u16) -> Plan {
     let msg = gen_errmsg(r);
-    let site = r.below(7);
+    let site = r.below(8);
     let mut cmds = Vec::new();
     let binary = r.coin();
     let rows_unit = |r: &mut Rng, close: Close, binary: bool| -> RowsUnit {
@@ -686,6 +692,7 @@ fn gen_c13_plan(r: &mut Rng, kind: u16) -> Plan {
             last_row_ended: r.chance(2, 3),
             close,
             contra: None,
+            recover: None,
         }
     };
     match site {
@@ -735,6 +742,27 @@ fn gen_c13_plan(r: &mut Rng, kind: u16) -> Plan {
                 cmds.push(q(b"finish_error", one_unit(Unit::Rows(unit))));
             }
         }
+        7 => {
+            // the shim reports an error after the library refused a value (binary mode): the
+            // refused cell is in column `col` of a row that follows 0..3 good rows
+            let mut unit = rows_unit(r, Close::Finish, true);
+            if unit.rows.is_empty() {
+                let row = unit.cols.iter().map(|c| gen_cell_bin(r, c, false)).collect();
+                unit.rows.push(row);
+            }
+            let row = r.usize_below(unit.rows.len()) as u32;
+            let col = if r.chance(2, 3) { 0 } else { r.usize_below(unit.cols.len()) };
+            let cell = wrong_kind_cell(r, unit.cols[col].coltype);
+            unit.contra = Some(Contra::WrongKind {
+                row,
+                col: col as u32,
+                cell,
+            });
+            unit.last_row_ended = true;
+            unit.recover = Some((kind, msg));
+            let cols = unit.cols.clone();
+            cmds.extend(prep_exec(r, 5, cols, one_unit(Unit::Rows(unit))));
+        }
         4 => cmds.push(Cmd {
             seq: 0,
             kind: CmdKind::Prepare(query_text(r)),
@@ -779,8 +807,8 @@ impl Check for C13 {
     }
     fn jobs(&self, tier: Tier) -> u64 {
         match tier {
-            Tier::Quick => 600_000,
-            Tier::Thorough => 10_000_000,
+            Tier::Quick => 2_000_000,
+            Tier::Thorough => 30_000_000,
         }
     }
     fn run_job(&self, rng: &mut Rng, _tier: Tier, job: u64, ctx: &mut JobCtx<'_>) {
@@ -900,6 +928,7 @@ fn gen_c14(r: &mut Rng, _t: Tier, _job: u64) -> Plan {
                     last_row_ended: r.chance(2, 3),
                     close: Close::FinishOne,
                     contra: None,
+                    recover: None,
                 }));
             }
         }
